@@ -130,17 +130,23 @@ AddLiteral(st, cs) == IF cs = <<>> THEN st ELSE AddLiteral(AddLiteral1(st, Head(
 (* Entities in content (4.4 Included): the replacement text, recursively;  *)
 (* no white-space normalization.  Total (fuel), see AttrNorm.              *)
 (***************************************************************************)
-RECURSIVE ExpandItems(_, _, _)
-ExpandItems(items, ents, fuel) ==
+\* replacement text with (eol) or without 2.11 applied to the literal entity value
+ReplText(ents, n, eol) ==
+  IF eol \/ ~Declared(ents, n) THEN ReplacementText(ents, n)
+  ELSE LET v == ents[EntIndex(ents, n)].v
+       IN [i \in 1..Len(v) |-> IF v[i].t = "r" THEN CI(v[i].c) ELSE v[i]]
+
+RECURSIVE ExpandItems(_, _, _, _)
+ExpandItems(items, ents, fuel, eol) ==
   IF items = <<>> THEN <<>>
   ELSE LET h == Head(items)
        IN (CASE h.t = "c" -> <<h.c>>
              [] h.t = "r" -> <<h.c>>
              [] h.t = "e" -> IF fuel = 0 \/ ~Known(ents, h.n) THEN <<>>
-                             ELSE ExpandItems(ReplacementText(ents, h.n), ents, fuel - 1)
+                             ELSE ExpandItems(ReplText(ents, h.n, eol), ents, fuel - 1, eol)
              [] OTHER -> <<>>)
-          \o ExpandItems(Tail(items), ents, fuel)
-ExpandEntity(ents, n) == ExpandItems(<<EI(n)>>, ents, Len(ents) + 1)
+          \o ExpandItems(Tail(items), ents, fuel, eol)
+ExpandEntity(ents, n, eol) == ExpandItems(<<EI(n)>>, ents, Len(ents) + 1, eol)
 
 \* does the (recursive) replacement text reachable from items contain '<' as data?
 RECURSIVE HasLt(_, _, _)
@@ -346,7 +352,7 @@ ApplyItems(st, items) ==
   ELSE LET h == Head(items)
            st1 == CASE h.t = "c" -> AddLiteral1(st, h.c)
                     [] h.t = "r" -> [AddChars(st, IF IsScalar(h.c) THEN <<h.c>> ELSE <<>>) EXCEPT !.pendingCr = FALSE]
-                    [] h.t = "e" -> [AddChars(st, ExpandEntity(st.ents, h.n)) EXCEPT !.pendingCr = FALSE]
+                    [] h.t = "e" -> [AddChars(st, ExpandEntity(st.ents, h.n, st.eol)) EXCEPT !.pendingCr = FALSE]
                     [] OTHER -> [st EXCEPT !.pendingCr = FALSE]
        IN ApplyItems(st1, Tail(items))
 
@@ -401,7 +407,8 @@ Apply(st, tok) ==
                                  sys |-> IF tok.ext = "pubonly" THEN <<>> ELSE tok.sys,
                                  hassys |-> (tok.ext # "pubonly")]}]
     [] k = "attlist" ->
-         [st EXCEPT !.attlists = Append(@, [el |-> tok.el,
+         [st EXCEPT !.inprofile = @ /\ \A i \in 1..Len(tok.defs) : ~OutOfProfile(st, tok.defs[i].dv),
+                    !.attlists = Append(@, [el |-> tok.el,
                        defs |-> [i \in 1..Len(tok.defs) |->
                                    [n |-> tok.defs[i].n, ty |-> tok.defs[i].ty, en |-> tok.defs[i].en,
                                     dk |-> tok.defs[i].dk, dv |-> StripX(tok.defs[i].dv)]]])]
